@@ -1,7 +1,7 @@
 """C10 -- transport capacity is conserved over any history of good and failed transfers."""
 from fractions import Fraction
 
-from ..ref import ids, tp21
+from ..ref import ids, tp21, tp22
 from ..runner import Job
 from ..symx import sym_eq_seq, sym_and, sym_or, sym_not, T
 from .. import world as W
@@ -232,6 +232,79 @@ def h_inbound(ex, dll, n_in=2, long_out=False):
     ex.witness()
 
 
+def h_inbound_fail(ex, dll, session=0, end='timeout', lead='1/5'):
+    """an inbound session that FAILS (its originator falls silent, or aborts) while the stack's own outbound sessions
+    are all open and unanswered: the failure of the inbound session must not release outbound capacity - one more
+    call is still refused, emits nothing; afterwards the full concurrency is available again"""
+    w = W.World(ex, mode='interleave')
+    w.branching = False
+    st = {nm: Stack(w, nm, ADDR[nm], dll=dll, max_cmdt_packets=1) for nm in 'ABC'}
+    A = st['A'].node
+    w.run(until=T('1/100'))
+    fd = dll != 'j1939-21'
+    seg = 60 if fd else 7
+    L_in = 3 * seg
+    pgn_in = 0xD200
+    # the inbound session: RTS from B's address, fed to A directly; B itself never sends a data packet
+    if fd:
+        A_in = lambda ctrl_frame: w.inject(A, tp21.can_id(7, tp22.PF_CM, ADDR['A'], ADDR['B']), ctrl_frame, fd=True)
+        A_in(tp22.cm_frame(tp22.RTS, session, L_in, 3, 255, 0, pgn_in))
+    else:
+        A_in = lambda ctrl_frame: w.inject(A, tp21.can_id(7, 0xEC, ADDR['A'], ADDR['B']), ctrl_frame)
+        A_in(tp21.rts(L_in, 255, pgn_in))
+    w.run(until=w.now + T(lead))
+    # B and C fall silent: A's own sessions stay open (waiting for a CTS) for T3
+    for nm in 'BC':
+        st[nm].node.silent_from = st[nm].node.sent
+    batch = []
+    if not fd:
+        for j, d in enumerate(['B', 'C']):
+            batch.append(('A', d, 'p2p', [(j * 50 + t) % 256 for t in range(20 + j)]))
+    else:
+        for j in range(8):
+            batch.append(('A', 'B' if j % 2 else 'C', 'p2p', [(j * 29 + t) % 256 for t in range(130 + j)]))
+
+    def start(item):
+        s, d, kind, p = item
+        return st[s].ca.send_pgn(0, 0xD1, ADDR[d], 6, list(p))
+
+    t_batch = w.now
+    for item in batch:
+        ex.claim('inbound_fail.batch_accepted', start(item) is True, {'dst': item[1], 'length': len(item[3])})
+    if end == 'abort':
+        w.run(until=w.now + T('1/10'))
+        if fd:
+            A_in(tp22.cm_frame(tp22.ABORT, session, 0xFFFFFF, 0xFFFFFF, 0xFF, 3, pgn_in))
+        else:
+            A_in(tp21.abort(3, pgn_in))
+        w.run(until=w.now + T('1/10'))
+    else:
+        # the inbound session times out (T2 = 1.25 s after the CTS) before A's own sessions do (T3 after t_batch)
+        w.run(until=T('1/100') + T('1.3'))
+    still_open = bool(w.now < t_batch + T('1.2'))
+    n1 = len(w.log)
+    r = start(('A', 'B', 'p2p', [7] * (200 if fd else 30)))
+    info = {'session': session, 'end': end, 'own_sessions_still_open': still_open}
+    if still_open:
+        ex.claim('inbound_fail.capacity_still_in_use_refused', r is False, info)
+        ex.claim('inbound_fail.refusal_emits_nothing', len(w.log) == n1, dict(info, frames=len(w.log) - n1))
+    w.run(until=w.now + T(8))
+    ex.claim('inbound_fail.job_threads_alive', all(x.alive() for x in st.values()), info)
+    for nm in 'BC':
+        st[nm].node.silent_from = None
+    for x in st.values():
+        del x.rx[:]
+    full = list(batch)
+    for item in full:
+        ex.claim('inbound_fail.capacity_afterwards', start(item) is True, dict(info, dst=item[1]))
+    w.run(until=w.now + T(8))
+    for (s, d, kind, p) in full:
+        got = [m for m in st[d].rx if len(m['data']) == len(p) and bool(m['sa'] == ADDR[s])]
+        ex.claim('inbound_fail.afterwards_delivered_once', len(got) == 1, dict(info, dst=d, length=len(p), got=len(got)))
+    ex.claim('inbound_fail.job_threads_alive_at_end', all(x.alive() for x in st.values()), info)
+    ex.witness()
+
+
 def jobs(tier):
     out = []
     q = tier == 'quick'
@@ -257,6 +330,9 @@ def jobs(tier):
         J('h_inbound', dll=dll, n_in=1)
         J('h_inbound', dll=dll, n_in=2)
         J('h_inbound', dll=dll, n_in=2, long_out=True)
+        for end in ('timeout', 'abort'):
+            for sess in ((0,) if dll == 'j1939-21' else ((0, 7, 9) if q else (0, 1, 3, 7, 8, 9, 15))):
+                J('h_inbound_fail', dll=dll, session=sess, end=end)
     return out
 
 
